@@ -189,6 +189,9 @@ func init() {
 		s := a[0].(Str)
 		if s.tag != nil {
 			if s.tag.isFloat {
+				if s.tag.prec != -1 {
+					panic(engineError{"imprecise: ParseFloat of a float rendered with fixed precision"})
+				}
 				fr.w.stub("ParseFloat(FormatFloat(f)) == f (trusted round trip)")
 				return Tuple{s.tag.fpOf, Iface{}}, true
 			}
